@@ -2,6 +2,7 @@
 import io
 import json
 import os
+import re
 import tempfile
 
 import fastavro
@@ -14,6 +15,13 @@ from ..ref import model as M
 from ..ref import binary as B
 from ..ref import canon
 from ..runner import Check, Violation, guard, outcome, HarnessError
+
+
+def names_type(e, full):
+    """Does the error name exactly this type (its `name` attribute, or the full name as a whole token of the message)?"""
+    if getattr(e, "name", None) == full:
+        return True
+    return re.search(r"(?<![\w.])" + re.escape(full) + r"(?![\w])", str(e)) is not None
 
 
 class C19(Check):
@@ -30,7 +38,7 @@ class C19(Check):
         "naming the missing full name. Non-trivial = graph with >=3 types or a type used from >=2 places. Distinct by digest."
     )
     assumptions = ["graphs are acyclic (recursive types are not placed in separate files)", "either all types live in namespaces or all in the null namespace (a null-namespace type cannot be referred to from a namespaced file)"]
-    required_labels = ["types>=3", "shared-type", "namespaces>=2", "relative-ref", "qualified-ref", "missing-file", "ordered", "depth>=2", "explicit-repo", "repo-object-reused"]
+    required_labels = ["types>=3", "shared-type", "namespaces>=2", "relative-ref", "qualified-ref", "missing-file", "ordered", "depth>=2", "explicit-repo", "repo-object-reused", "files>=2", "files>=4", "ref@field", "ref@array", "ref@map", "ref@union", "ordered:second-order"]
     quick = (1500, 1)
     thorough = (3000, 16)
 
@@ -44,9 +52,13 @@ class C19(Check):
             d = gen.D(draw)
             pool = d.choice([[""], ["ns"], ["ns", "com.ex"], ["ns", "com.ex", "ns.sub"]])
             feat = gen.Features(big=False, exotic_seqs=False, extra_keys=0.0, recursion=False, ns_pool=pool, name_clash=0.2, top_kinds=("record",), max_depth=4, max_named=8)
-            ir, table, js = gen.build_schema(d, feat)
+            for _ in range(4):
+                # a dependency needs at least two named types: draw again rather than spend the case on a single file
+                ir, table, js = gen.build_schema(d, feat)
+                root, gtable = gen.to_graph(ir)
+                if len(gtable) >= 2:
+                    break
             gen.check_truth(ir, table, js)
-            root, gtable = gen.to_graph(ir)
             names = list(gtable)
             files = {}
             for n in names:
@@ -117,13 +129,14 @@ class C19(Check):
             raise HarnessError("nested definition inside a per-type file")
         return node
 
-    def _dep_order(self, top, table):
+    def _dep_order(self, top, table, reverse=False):
         order = []
 
         def visit(n):
             if n in order:
                 return
-            for m in gen.reach(n, table)[1:]:
+            deps = gen.reach(n, table)[1:]
+            for m in (list(reversed(deps)) if reverse else deps):
                 if m not in order and m != n:
                     visit(m)
             if n not in order:
@@ -140,6 +153,10 @@ class C19(Check):
         reachable = gen.reach(top, table)
         if len(reachable) >= 3:
             labels.add("types>=3")
+        if len(reachable) >= 2:
+            labels.add("files>=2")
+        if len(reachable) >= 4:
+            labels.add("files>=4")
         if len({M.split_full(n)[0] for n in reachable}) >= 2:
             labels.add("namespaces>=2")
         text = json.dumps(files)
@@ -188,6 +205,14 @@ class C19(Check):
             if got_o != want:
                 i = next((j for j in range(min(len(got_o), len(want))) if got_o[j] != want[j]), min(len(got_o), len(want)))
                 raise Violation("load_schema_ordered-differs-from-inlined", f"at char {i}: loaded ...{got_o[max(0,i-40):i+60]!r} inlined ...{want[max(0,i-40):i+60]!r}; order={order}")
+            # another dependencies-first order (siblings visited in reverse), when there is one
+            order2 = self._dep_order(top, table, reverse=True)
+            if order2 != order:
+                labels.add("ordered:second-order")
+                lo2 = guard("load_schema_ordered", load_schema_ordered, [os.path.join(td, n + ".avsc") for n in order2])
+                go2 = guard("canonical-form", to_parsing_canonical_form, lo2)
+                if go2 != want:
+                    raise Violation("load_schema_ordered-depends-on-order", f"order {order2} gives {go2!r:.300}, order {order} gives the inlined form {want!r:.300}")
             # same encodings as the inlined schema
             inlined_js = gen.render_plain(ir)
             for datum in case["data"]:
@@ -214,12 +239,13 @@ class C19(Check):
                 if o[0] == "ok":
                     raise Violation("missing-file-not-reported", f"load_schema succeeded although {missing}.avsc is missing")
                 e = o[1]
-                named = getattr(e, "name", None)
-                if named != missing and missing not in str(e):
-                    raise Violation("missing-file-error-names-other-type", f"{missing}.avsc is missing; error is {type(e).__name__}({str(e)[:200]!r}) name={named!r}; files={list(files)}")
+                if not names_type(e, missing):
+                    raise Violation("missing-file-error-names-other-type", f"{missing}.avsc is missing; error is {type(e).__name__}({str(e)[:200]!r}) name={getattr(e, 'name', None)!r}; files={list(files)}")
                 o = outcome(load_schema, top, repo=repo)
                 if o[0] == "ok":
                     raise Violation("missing-file-not-reported:reused-repo", f"load_schema through the repository object used before succeeded although {missing}.avsc has been deleted")
+                if not names_type(o[1], missing):
+                    raise Violation("missing-file-error-names-other-type:repo", f"{missing}.avsc is missing; load_schema(top, repo=...) raised {type(o[1]).__name__}({str(o[1])[:200]!r})")
         return labels
 
     def _enc(self, schema, datum):
@@ -261,22 +287,23 @@ class C19(Check):
         return d
 
     def _spelling_labels(self, files, labels):
-        def walk(js):
+        def walk(js, where="field"):
             if isinstance(js, str):
                 if js not in M.PRIMS:
                     labels.add("qualified-ref" if "." in js else "relative-ref")
+                    labels.add("ref@" + where)
             elif isinstance(js, list):
                 for b in js:
-                    walk(b)
+                    walk(b, "union")
             elif isinstance(js, dict):
                 t = js.get("type")
                 if t == "record":
                     for f in js["fields"]:
-                        walk(f["type"])
+                        walk(f["type"], "field")
                 elif t == "array":
-                    walk(js["items"])
+                    walk(js["items"], "array")
                 elif t == "map":
-                    walk(js["values"])
+                    walk(js["values"], "map")
         for js in files.values():
             walk(js)
 
